@@ -266,6 +266,13 @@ def write_evidence(prop, args, seed, hm, results, wall, nviol, known_hits, incon
         "wall_s": round(wall, 2),
         "violations": nviol,
     }
+    if ev["level"] == "fault_enumeration":
+        # one evaluation = one explored path = one session with its own (fault index, exception kind, widget answers) vector
+        ev["coverage"]["evaluations"] = sum(r.get("paths", 0) for r in ok)
+        ev["coverage"]["distinct_nontrivial"] = sum((r.get("kinds") or {}).get("ok", 0) for r in ok)
+        ev["coverage"]["rule"] = ("one evaluation = one session of the real code under one solver-chosen vector (fault index, exception kind, widget answers); the solver "
+                                  "enumerates the vectors and the coverage certificate shows none was skipped, so vectors are distinct by construction; non-trivial = the "
+                                  "session ran to its end and its obligations were checked (paths cut by an assumption are not counted)")
     os.makedirs(os.path.join(ROOT, "evidence"), exist_ok=True)
     with open(os.path.join(ROOT, "evidence", prop + ".json"), "w") as f:
         json.dump(ev, f, indent=1, default=str)
